@@ -180,6 +180,14 @@ def cases(draw, max_n=50):
     return c
 
 
+def fuzz_strategy(ctx):
+    return cases(max_n=12)
+
+
+def nontrivial(case):
+    return len(case["recs"]) >= 2 and rollover(case)
+
+
 def run(ctx):
     def fn(c, case):
         check_case(c, case)
